@@ -113,6 +113,16 @@ func exploreScenario(r *mc.Report, sc *Scenario, b mc.Bounds, oracle oracleFn) {
 	}
 	var e *Env
 	reproduced := map[string]bool{}
+	if b.Shard == 0 {
+		// determinism self-test: the default schedule run twice gives identical choices and observations
+		var e1, e2 *Env
+		s1 := mc.RunOne(nil, b, func() { sc.RunInto(&e1) })
+		s2 := mc.RunOne(s1.Choices(), b, func() { sc.RunInto(&e2) })
+		if e1 == nil || e2 == nil || fmt.Sprint(s1.Choices()) != fmt.Sprint(s2.Choices()) || e1.Summary() != e2.Summary() {
+			r.MachErr = append(r.MachErr, "determinism self-test failed for scenario "+sc.Name)
+			return
+		}
+	}
 	st := mc.Explore(b, func() { sc.RunInto(&e) }, func(s *vsched.Sched, cost [2]int) bool {
 		r.Outcome(sc.Name + " | " + e.Summary())
 		fs := append(genericFindings(e, s), oracle(e, s)...)
